@@ -15,7 +15,7 @@ use std::process::{Command, Stdio};
 use std::time::{Duration, Instant};
 use xml_schema_generator::{Element, Options, SortBy};
 
-pub const PARTS: &[&str] = &["bytes", "tokens", "edits", "edits2", "long", "depth", "reader", "reader-docs"];
+pub const PARTS: &[&str] = &["bytes", "tokens", "edits", "edits2", "long", "wide", "depth", "reader", "reader-docs"];
 
 fn tier_of(s: &str) -> Tier {
     if s == "thorough" {
@@ -42,6 +42,7 @@ fn space(part: &str, tier: Tier) -> Option<Box<dyn InputSpace>> {
         "edits" => Some(Box::new(Edits::new(valid_docs(3, vec![Kind::Text, Kind::CData, Kind::Comment, Kind::PI]), false))),
         "edits2" => Some(Box::new(Edits::new(valid_docs(tier.pick(1, 2), vec![Kind::Text, Kind::CData, Kind::Comment]), true))),
         "long" => Some(Box::new(Listed(long_inputs(tier.pick(300, 1100))))),
+        "wide" => Some(Box::new(Listed(wide_inputs(tier.pick(24, 40))))),
         "reader" => Some(Box::new(Tokens { tokens: xml_tokens(), max_len: 3 })),
         "reader-docs" => Some(Box::new(Listed(valid_docs(tier.pick(3, 4), vec![Kind::Text, Kind::CData, Kind::Comment, Kind::PI])))),
         _ => None,
@@ -161,6 +162,38 @@ impl InputSpace for Listed {
     fn describe(&self) -> String {
         format!("{} valid documents", self.0.len())
     }
+}
+
+/// wide elements: n attributes (and n children) named prefix + number, plus one name with a trailing
+/// letter, in every rotation of the ascending and of the descending order (sorting code sees many
+/// different input orders of names whose numeric and lexicographic orders disagree)
+pub fn wide_inputs(max_n: usize) -> Vec<Vec<u8>> {
+    let mut out = Vec::new();
+    for n in (2..=max_n).filter(|n| *n <= 4 || *n >= 16) {
+        let mut base: Vec<String> = (1..=n).map(|i| format!("line{}", i)).collect();
+        for extra_pos in [0, n / 2, n] {
+            let mut names = base.clone();
+            names.insert(extra_pos, "line1b".to_string());
+            for descending in [false, true] {
+                let mut v = names.clone();
+                if descending {
+                    v.reverse();
+                }
+                for rot in 0..v.len() {
+                    let mut w = v.clone();
+                    w.rotate_left(rot);
+                    let attrs: String = w.iter().map(|a| format!(" {}=\"v\"", a)).collect();
+                    out.push(format!("<r{}/>", attrs).into_bytes());
+                    if rot % 4 == 0 {
+                        let kids: String = w.iter().map(|a| format!("<{} k=\"v\"/>", a)).collect();
+                        out.push(format!("<r>{}</r>", kids).into_bytes());
+                    }
+                }
+            }
+        }
+        base.clear();
+    }
+    out
 }
 
 /// long names, values and character data with a multi-byte character at every offset
@@ -421,8 +454,8 @@ pub fn run(ctx: &Ctx) {
     ctx.set("exhaustive", json!(true));
     let tier = ctx.tier;
     let parts: Vec<&str> = match tier {
-        Tier::Quick => vec!["bytes", "tokens", "edits", "long", "depth", "reader", "reader-docs"],
-        Tier::Thorough => vec!["bytes", "tokens", "edits", "edits2", "long", "depth", "reader", "reader-docs"],
+        Tier::Quick => vec!["bytes", "tokens", "edits", "long", "wide", "depth", "reader", "reader-docs"],
+        Tier::Thorough => vec!["bytes", "tokens", "edits", "edits2", "long", "wide", "depth", "reader", "reader-docs"],
     };
     let mut total_calls = 0u64;
     let mut total_inputs = 0u64;
@@ -435,7 +468,7 @@ pub fn run(ctx: &Ctx) {
         let step = (per / 50).max(1);
         let next = std::sync::atomic::AtomicUsize::new(0);
         let results: std::sync::Mutex<Vec<(u64, u64, ChildOutcome)>> = std::sync::Mutex::new(Vec::new());
-        let remaining = || ctx.deadline.saturating_duration_since(Instant::now()).max(Duration::from_secs(20));
+        let remaining = || ctx.deadline.saturating_duration_since(Instant::now()).max(Duration::from_secs(90));
         std::thread::scope(|s| {
             for _ in 0..ctx.threads {
                 s.spawn(|| loop {
